@@ -58,6 +58,17 @@ def prog_key(p):
     return hashlib.sha1(json.dumps(p['code'], sort_keys=True).encode()).hexdigest()[:16]
 
 
+def pinned(p):
+    """Programs every run keeps regardless of sampling: a call with an output window whose callee REVERTs with payload and whose
+    window is then stored; an account inspected right after a call touched / funded it."""
+    a, b = p['code'].get('A') or [], p['code'].get('B') or []
+    if len(a) == 2 and a[1]['op'] == 'SSTORE' and a[1]['v'] in ('w1', 'w2') and a[0]['k'] in ('32', '64') and b and b[-1]['op'] == 'REVERT':
+        return True
+    if len(a) == 2 and a[1]['op'] == 'EXTCODEHASH' and a[1]['k'] in ('0', '1') and a[0]['op'] in ('CALL', 'STATICCALL') and a[0]['t'] == a[1]['t']:
+        return True
+    return False
+
+
 def nontrivial(p):
     m = set(p.get('marks') or [])
     inner = [x for x in m if x.startswith('sub-')]
@@ -157,6 +168,9 @@ MEMFILL = push(0x1122334455667788990011223344556677889900aabbccddeeff00112233445
 CALLDATA = bytes(range(1, 41))
 RETURNER, REVERTER, FAILER = (0xd100000000000000000000000000000000000d01, 0xd200000000000000000000000000000000000d02,
                               0xd300000000000000000000000000000000000d03)
+SUICIDER = 0xd400000000000000000000000000000000000d04
+EMPTYACCT = 0xe000000000000000000000000000000000000e0e
+FRESH = 0xf4e5000000000000000000000000000000000f01
 MARKER = int.from_bytes(bytes([0xab]) * 32, 'big')
 INIT1 = bytes.fromhex('600160005360016000f3')          # creates a contract with the 1-byte code 01
 INITREV = bytes.fromhex('60006000fd')                  # init code that reverts
@@ -328,6 +342,23 @@ def gen_snippets(rng, per_op, mode='ANN'):
                 add(name, push(1) + push(0) + op('SSTORE') + push(a) + bytes([b]))
         else:
             raise AssertionError('no generator for ' + name)
+    # account-inspecting opcodes x account class.  `pre` brings the account into the class inside the same transaction.
+    def zcall(to, val=0, opname='CALL'):
+        a = [0, 0, 0, 0] + ([val] if opname in ('CALL', 'CALLCODE') else []) + [to]
+        return b''.join(push(x) for x in a) + op('GAS') + op(opname) + op('POP')
+    classes = [('nonexistent', NOBODY, b''), ('empty-in-prestate', EMPTYACCT, b''), ('funded-eoa', SENDER, b''), ('contract', OTHER, b''),
+               ('self', SELF, b''), ('precompile-untouched', 3, b''), ('precompile-touched-by-call', 2, zcall(2)),
+               ('precompile-touched-by-staticcall', 4, zcall(4, opname='STATICCALL')), ('precompile-funded', 2, zcall(2, 1)),
+               ('fresh-touched-by-zero-value-call', FRESH, zcall(FRESH)), ('fresh-funded-in-tx', FRESH, zcall(FRESH, 1)),
+               ('fresh-touched-by-staticcall', FRESH, zcall(FRESH, opname='STATICCALL')),
+               ('empty-in-prestate-touched', EMPTYACCT, zcall(EMPTYACCT)), ('governance-precompile-documented-deviation', 0xfe, zcall(0xfe)),
+               ('selfdestructed-in-tx', SUICIDER, zcall(SUICIDER)), ('selfdestruct-beneficiary-fresh', FRESH, push(FRESH) + op('SELFDESTRUCT'))]
+    for cname, a, pre in classes:
+        if cname.startswith('selfdestruct-beneficiary'):
+            continue    # the inspecting frame would be gone
+        for oname in ('EXTCODEHASH', 'EXTCODESIZE', 'BALANCE'):
+            add('%s:acct:%s' % (oname, cname), with_operands(BYNAME[oname], [a], 1, pre=pre))
+        add('EXTCODECOPY:acct:%s' % cname, with_operands(BYNAME['EXTCODECOPY'], [a, 0, 0, 32], 0, tail=push(64) + push(0) + op('RETURN'), pre=MEMFILL + pre))
     # stack limits
     add('STACK:1024', push(1) * 1024 + ret_top(1))
     add('STACK:1025', push(1) * 1025 + ret_top(1))
@@ -369,6 +400,9 @@ CONFIGS = {
     'win_ref':   ('MC_EVMFrames_win_ref.cfg', 'REF', 'direct', 3),
     'win_ann':   ('MC_EVMFrames_win_ann.cfg', 'ANN', 'direct', 3),
     'win_app':   ('MC_EVMFrames_win_app.cfg', 'APP', 'direct', 3),
+    'insp_ref':  ('MC_EVMFrames_insp_ref.cfg', 'REF', 'direct', 3),
+    'insp_ann':  ('MC_EVMFrames_insp_ann.cfg', 'ANN', 'direct', 3),
+    'insp_app':  ('MC_EVMFrames_insp_app.cfg', 'APP', 'direct', 3),
     'deep_ann':  ('MC_EVMFrames_deep_ann.cfg', 'ANN', 'tramp', 2),
     'deep_ref':  ('MC_EVMFrames_deep_ref.cfg', 'REF', 'tramp', 2),
     'sim_ref_d': ('MC_EVMFrames_sim_ref_d.cfg', 'REF', 'direct', 4),
@@ -537,8 +571,8 @@ def run(ctx, replay=None):
     quick = ctx.tier == 'quick'
     W = 2 if quick else 4
     TO = 600 if quick else 3000
-    exh = ['core_ann', 'core_app', 'crea_ref', 'crea_app', 'deep_ann', 'win_ann'] if quick else \
-        ['core_ref', 'core_ann', 'core_app', 'crea_ref', 'crea_ann', 'crea_app', 'deep_ann', 'deep_ref', 'win_ref', 'win_ann', 'win_app']
+    exh = ['core_ann', 'core_app', 'crea_ref', 'crea_app', 'deep_ann', 'win_ann', 'insp_ann'] if quick else \
+        ['core_ref', 'core_ann', 'core_app', 'crea_ref', 'crea_ann', 'crea_app', 'deep_ann', 'deep_ref', 'win_ref', 'win_ann', 'win_app', 'insp_ref', 'insp_ann', 'insp_app']
     sims = [(n, (150, 250) if quick else (350, 300)) for n in (('sim_ref_d', 'sim_ann_d', 'sim_app_t', 'sim_ann_t') if quick else
                                                               ('sim_ref_d', 'sim_ann_d', 'sim_app_d', 'sim_ref_t', 'sim_ann_t', 'sim_app_t'))]
     results = {}
@@ -567,8 +601,8 @@ def run(ctx, replay=None):
     if True:
         # a seeded sample of the larger exhaustive sets (programs entered through the 1022-frame trampoline cost ~30 ms
         # each on each binary); the thorough tier runs the direct-entry sets completely; every simulated program is run
-        # (win_ann, the output-window x callee-outcome x call-kind set, is always run completely)
-        caps = {'core_ann': 600, 'core_app': 600, 'crea_ref': 500, 'crea_app': 700, 'deep_ann': 400, 'win_ref': 600} if quick else \
+        # (pinned programs - window + reverting callee, inspect-after-touch - are always kept, see pinned())
+        caps = {'core_ann': 600, 'core_app': 600, 'crea_ref': 500, 'crea_app': 700, 'deep_ann': 400, 'win_ref': 600, 'win_ann': 2500, 'insp_ann': 1500} if quick else \
             {'deep_ann': 1200, 'deep_ref': 1200}
         by = {}
         for t in traces:
@@ -576,7 +610,9 @@ def run(ctx, replay=None):
         traces = []
         for g in sorted(by):
             ctx.rng.shuffle(by[g])
-            traces += by[g][:caps.get(g, len(by[g]))]
+            by[g].sort(key=lambda t: not pinned(t['steps'][0]['post']))    # stable: pinned programs first, never sampled away
+            npin = sum(1 for t in by[g] if pinned(t['steps'][0]['post']))
+            traces += by[g][:max(npin, caps.get(g, len(by[g])))]
     rng = random.Random(ctx.seed)
     sn_traces, nsn = snippet_traces(rng, 2 if quick else 12, 'ANN')
     sn_app, nsn2 = snippet_traces(random.Random(ctx.seed + 1000), 1, 'APP')
